@@ -823,9 +823,9 @@ def lock_paths(ctx):
         return None, "could not find the results in:\n" + out[-1500:]
     r, u = (x.rsplit(" : ", 1)[0].strip() for x in m1.groups())
     paths = []
-    for m in re.finditer(r'\("([^"]+)",\s*"([^"]+)",\s*(-?\d+),\s*(-?\d+),\s*(\[.*?\]|nil)\)(?=;|\s*\]|\s*$)', r):
+    for m in re.finditer(r'\(\s*"([^"]+)",\s*"([^"]+)",\s*(-?\d+),\s*(-?\d+),\s*(\[.*?\]|nil)\)(?=;|\s*\]|\s*$)', r):
         fn, reason, d, p, w = m.groups()
-        steps = [{"at": a.replace('""', '"'), "taken": b == "true"} for a, b in re.findall(r'\("((?:[^"]|"")*)",\s*(true|false)\)', w)]
+        steps = [{"at": a.replace('""', '"'), "taken": b == "true"} for a, b in re.findall(r'\(\s*"((?:[^"]|"")*)",\s*(true|false)\)', w)]
         paths.append({"function@mutex.mode": fn, "reason": reason, "held_at_exit": int(d), "deferred_releases": int(p),
                       "net_locks_left_held": int(d) + int(p), "path": steps})
     if r not in ("[]", "nil") and not paths:
@@ -951,7 +951,7 @@ def unknown_sites(ctx):
     if rc != 0:
         return None
     flat = " ".join(out.split())
-    found = re.findall(r'\("([^"]+)",\s*"([^"]+)",\s*"((?:[^"]|"")*)",\s*(\d+)(?:%nat)?\)', flat)
+    found = re.findall(r'\(\s*"([^"]+)",\s*"([^"]+)",\s*"((?:[^"]|"")*)",\s*(\d+)(?:%nat)?\)', flat)
     m = re.search(r"U\s*=\s*(.*?)\s*:\s*list", flat)
     if m and m.group(1).strip() not in ("[]", "nil") and not found:
         return None      # printed a non-empty list that could not be parsed
